@@ -149,7 +149,7 @@ def predOf (r : Run) : Pred :=
     leaked := (ns.filter (fun p => !p.1.done)).length + (ns.filter (fun p => !p.1.helperDone)).length + (if s.thrDone then 0 else 1)
     deliv := (ns.filter (fun p => isOutput p.1.kind)).map (fun p => (p.2, p.1.deliv))
     lostIngest := s.lostIngest
-    lostAt := (ns.filter (fun p => p.1.lost > 0 || (p.1.done && p.1.inq > 0))).map (fun p => (p.2, p.1.lost + p.1.inq))
+    lostAt := (ns.filter (fun p => p.1.lost + p.1.dropped > 0 || (p.1.done && p.1.inq > 0))).map (fun p => (p.2, p.1.lost + p.1.dropped + p.1.inq))
     failed := s.nodes.any (fun nd => nd.failed)
     seen := r.seen }
 
